@@ -744,19 +744,18 @@ where
     where
         I: IntoIterator<Item = InMemElement<D>>,
     {
-        let mut calculated_length: u32 = 0;
-        let mut entries: BTreeMap<_, _> = iter
-            .into_iter()
-            .map(|e| {
-                // count the length of command set elements
-                if e.tag().0 == 0x0000 && e.tag().1 != 0x0000 {
-                    let l = e.value().length();
-                    calculated_length += if l.is_defined() { even_len(l.0) } else { 0 } + 8;
-                }
+        let mut entries: BTreeMap<_, _> = iter.into_iter().map(|e| (e.tag(), e)).collect();
 
-                (e.tag(), e)
+        // count the length of the command set elements which were kept
+        // (an element given more than once is only written once)
+        let calculated_length: u32 = entries
+            .values()
+            .filter(|e| e.tag().0 == 0x0000 && e.tag().1 != 0x0000)
+            .map(|e| {
+                let l = e.value().length();
+                (if l.is_defined() { even_len(l.0) } else { 0 }) + 8
             })
-            .collect();
+            .sum();
 
         entries.insert(
             Tag(0, 0),
